@@ -345,7 +345,7 @@ def ret_cover(f):
         if k == 'match':
             rec(n['e'], conds)
             for a in n['arms']:
-                rec(a['body'], conds + [n['e']])
+                rec(a['body'], conds + [n['e']] + ([a['guard']] if 'guard' in a else []))
             return
         if k == 'closure':
             return
